@@ -1,18 +1,22 @@
 /-
   C02 — Any change to signed content or to the signature makes verification fail.   VSIX / OPC part (model `Relic.Model.Vsix`
-  of signers/vsix `verify`, `readSignature`, `checkManifest`).
+  of signers/vsix `verify`, `readSignature`, `checkManifest`), for the verifier before (`fx = false`) and after (`fx = true`) the
+  repairs of findings FV3 (unlisted parts) and FV4 (two members of one name).
 
   * `vsix_part_covered_iff`: the Manifest of a signed package lists exactly the kept parts of the input and three of the
     parts the signer adds (`_rels/.rels`, the origin's relationship part, the origin part).
-  * `vsix_tamper_evident_partial`: if `verify` accepts a package whose signature part opens to the Object the signer made,
-    every covered part — the last member of that name — has the digested bytes (collision-freeness is a hypothesis on the
-    two streams in question).
-  * `vsix_verify_depends_only_on_lookups`: the verdict is a function of the members stored under the names in `lookups`:
-    the relationship chain, the signature part, the certificate parts, and one name per Reference.  Everything else in the
-    archive is ignored.  Consequences, each a listed finding replayed on the real verifier:
-    `vsix_unlisted_part_accepted` (a part added under a new name), `vsix_shadowed_member_accepted` (a second member of a covered
-    name placed before it), `vsix_content_types_unchecked` (`[Content_Types].xml` replaced or removed: the content type inside a
-    Reference URI is never compared with anything).
+  * `vsix_tamper_evident_partial` (both): if `verify` accepts a package whose signature part opens to the Object the signer
+    made, every covered part — the last member of that name — has the digested bytes.
+  * repaired verifier: `vsix_accept_covers_all` (an accepted package has no two members of one name and every payload member
+    — every name `keepFile` keeps — is named by a Reference), hence `vsix_tamper_evident`: the payload members of an accepted
+    package are exactly the payload members that were signed, byte for byte; `vsix_unlisted_part_rejected`,
+    `vsix_shadowed_member_rejected`.
+  * what stays unprotected, exactly: `vsix_verify_depends_only_on_lookups` — the verdict is a function of the members stored
+    under the names in `lookups`, of whether some name occurs twice, and of which payload names occur.  Members whose names
+    `keepFile` refuses and that the verifier does not look up (`[Content_Types].xml`: `vsix_content_types_unchecked`, listed FV5;
+    foreign `*.rels` / `*.psdor` / `*.psdsxs` and anything below `package/services/digital-signature/`: listed FV6) and the
+    order of the members are free.
+  * the verifier before the repairs: `vsix_unlisted_part_accepted`, `vsix_shadowed_member_accepted` (witnesses of FV3, FV4).
 -/
 import Relic.Proofs.VsixCover
 import Relic.Props.C01_Vsix
@@ -20,69 +24,37 @@ namespace Relic.Props.C02
 open Relic Relic.Xml Relic.XmlSig Relic.Vsix Relic.Props.C01
 
 /-- **vsix_part_covered_iff.** -/
-theorem vsix_part_covered_iff (E : Env) (c : Cfg) (pkg : Pkg) (s : Vsix.Signed) (hs : Vsix.sign E c pkg = .ok s) (n : Bytes) :
+theorem vsix_part_covered_iff (fx : Bool) (E : Env) (c : Cfg) (pkg : Pkg) (s : Vsix.Signed) (hs : Vsix.sign fx E c pkg = .ok s) (n : Bytes) :
     n ∈ s.refs.map (·.name) ↔
-      (∃ p ∈ pkg, p.name = n ∧ keepFile n = true) ∨ n = relPath [] ∨ n = relPath sOrigin ∨ n = sOrigin := by
-  obtain ⟨m, hm, hrefs, -, -, -, -⟩ := sign_inv hs
-  obtain ⟨-, hdig⟩ := mangle_spec E pkg {} m hm
-  have hpairs := mkRefs_spec _ _ _ hrefs
-  have e1 : n ∈ s.refs.map (·.name) ↔ ∃ st, (n, st) ∈ sortMap (addDigests m.digests (fixedNews E c)) := by
-    rw [← hpairs]
-    simp only [List.mem_map, Prod.mk.injEq]
-    constructor
-    · rintro ⟨r, hr, rfl⟩; exact ⟨r.stream, r, hr, rfl, rfl⟩
-    · rintro ⟨st, r, hr, h1, -⟩; exact ⟨r, hr, h1⟩
-  rw [e1]
-  simp only [mem_sortMap, addDigests, hdig, ← List.foldl_append, mem_digests, List.not_mem_nil, and_false, or_false]
-  constructor
-  · rintro ⟨st, h⟩
-    rw [findLast_append] at h
-    cases hq : findLast (fixedNews E c) n with
-    | some q =>
-      have := findLast_some hq
-      simp only [fixedNews, List.mem_cons, List.not_mem_nil, or_false] at this
-      rcases this with ⟨rfl | rfl | rfl, rfl⟩
-      · exact Or.inr (Or.inl rfl)
-      · exact Or.inr (Or.inr (Or.inl rfl))
-      · exact Or.inr (Or.inr (Or.inr rfl))
-    | none =>
-      rw [hq] at h
-      obtain ⟨h1, h2⟩ := findLast_some h
-      simp only [keptOf, List.mem_filter] at h1
-      exact Or.inl ⟨_, h1.1, h2, by simpa using h1.2⟩
-  · rintro (⟨p, hp, rfl, hk⟩ | h)
-    · rw [findLast_append]
-      cases hq : findLast (fixedNews E c) p.name with
-      | some q => exact ⟨q.data, by simp only; rw [← (findLast_some hq).2]⟩
-      | none =>
-        simp only
-        have hmem : p ∈ keptOf pkg := by simp [keptOf, hp, hk]
-        obtain ⟨q, hk2⟩ := findLast_of_mem hmem
-        exact ⟨q.data, by rw [hk2, ← (findLast_some hk2).2]⟩
-    · have hin : ∀ p ∈ fixedNews E c, ∃ st, findLast (keptOf pkg ++ fixedNews E c) p.name = some ⟨p.name, st⟩ := by
-        intro p hp
-        rw [findLast_append]
-        have hnd : ((fixedNews E c).map (·.name)).Nodup := by
-          simp only [fixedNews, List.map_cons, List.map_nil]
-          decide
-        rw [findLast_of_nodup hnd hp]
-        exact ⟨p.data, rfl⟩
-      rcases h with rfl | rfl | rfl
-      · exact hin _ (by unfold fixedNews; exact List.mem_cons_self)
-      · exact hin _ (by unfold fixedNews; exact List.mem_cons_of_mem _ List.mem_cons_self)
-      · exact hin _ (by unfold fixedNews; exact List.mem_cons_of_mem _ (List.mem_cons_of_mem _ List.mem_cons_self))
+      (∃ p ∈ pkg, p.name = n ∧ keepFile n = true) ∨ n = relPath [] ∨ n = relPath sOrigin ∨ n = sOrigin :=
+  refs_names_iff hs n
 
-/-- **vsix_tamper_evident_partial.** `s` = a signing of `pkg` whose part names survive the URI round trip; `q` = any package
-    that `verify` accepts and whose signature part the XML layer opens to the Object of `s` (what the XML-DSig layer
-    guarantees for a valid signature by the same key: `xml_tamper_evident_partial`).  If the digest comparison is
-    collision-free on the streams involved, every part the Manifest covers is present in `q` and its last member of that
-    name carries exactly the digested bytes. -/
-theorem vsix_tamper_evident_partial (E : Env) (c : Cfg) (pkg : Pkg) (s : Vsix.Signed) (q : Pkg) (v : Verdict)
-    (hs : Vsix.sign E c pkg = .ok s) (hr : refsOk s.refs = true) (hv : Vsix.verify E q = .ok v)
+/-- what an accepting run of `verify` went through -/
+theorem verify_ok_inv (fx : Bool) (E : Env) (q : Pkg) (v : Verdict) (hv : Vsix.verify fx E q = .ok v) :
+    (fx = true → (q.map (·.name)).Nodup) ∧
+    ∃ sc o, readSignature E (findLast q) = .ok sc ∧ E.xopen sc.1 sc.2 = .ok o ∧
+      checkRefs E (findLast q) (decodeManifest o.reference) = .ok v.checked ∧ o.ts = none ∧ v.hash = o.hash ∧ v.key = o.key ∧
+      v.key ∈ sc.2 ++ o.embedded ∧ (fx = true → uncovered (q.map (·.name)) v.checked = false) := by
+  unfold Vsix.verify at hv
+  by_cases hd : (fx && hasDup q) = true
+  · simp [hd] at hv
+  · simp only [hd, Bool.false_eq_true, if_false] at hv
+    refine ⟨?_, verifyF_ok_inv fx E _ _ v hv⟩
+    intro hfx
+    subst hfx
+    simpa [hasDup] using hd
+
+/-- **vsix_tamper_evident_partial** (before and after the repairs).  `s` = a signing of `pkg` whose part names survive the URI
+    round trip; `q` = any package that `verify` accepts and whose signature part the XML layer opens to the Object of `s`
+    (what the XML-DSig layer guarantees for a valid signature by the same key: `xml_tamper_evident_partial`).  If the digest
+    comparison is collision-free on the streams involved, every part the Manifest covers is present in `q` and its last
+    member of that name carries exactly the digested bytes. -/
+theorem vsix_tamper_evident_partial (fx fx' : Bool) (E : Env) (c : Cfg) (pkg : Pkg) (s : Vsix.Signed) (q : Pkg) (v : Verdict)
+    (hs : Vsix.sign fx E c pkg = .ok s) (hr : refsOk s.refs = true) (hv : Vsix.verify fx' E q = .ok v)
     (hobj : ∀ sc o, readSignature E (findLast q) = .ok sc → E.xopen sc.1 sc.2 = .ok o → o.reference = s.obj)
     (hcoll : ∀ a b, E.digestCmp c.hash a (E.dtext c.hash b) = .ok → a = b) :
     ∀ r ∈ s.refs, findLast q r.name = some ⟨r.name, r.stream⟩ := by
-  obtain ⟨sc, o, h1, h2, h3, -⟩ := verifyF_ok_inv E _ v hv
+  obtain ⟨-, sc, o, h1, h2, h3, -⟩ := verify_ok_inv fx' E q v hv
   obtain ⟨m, -, -, hobjeq, -, -, -⟩ := sign_inv hs
   rw [hobj sc o h1 h2, hobjeq, decodeManifest_objectNode] at h3
   intro r hrm
@@ -96,15 +68,118 @@ theorem vsix_tamper_evident_partial (E : Env) (c : Cfg) (pkg : Pkg) (s : Vsix.Si
   cases f
   simp_all
 
+/-- **vsix_accept_covers_all** (repaired verifier).  An accepted package has no two members of one name, and every member whose
+    name `keepFile` keeps — everything that is not relationship / origin / signature / content-types metadata — is named by a
+    Reference whose digest was recomputed. -/
+theorem vsix_accept_covers_all (E : Env) (q : Pkg) (v : Verdict) (hv : Vsix.verify true E q = .ok v) :
+    (q.map (·.name)).Nodup ∧ ∀ p ∈ q, keepFile p.name = true → p.name ∈ v.checked.map (·.1) := by
+  obtain ⟨hnd, sc, o, -, -, -, -, -, -, -, hunc⟩ := verify_ok_inv true E q v hv
+  refine ⟨hnd rfl, ?_⟩
+  intro p hp hk
+  have hu := hunc rfl
+  apply Classical.byContradiction
+  intro hnot
+  have : uncovered (q.map (·.name)) v.checked = true := by
+    simp only [uncovered, List.any_eq_true, Bool.and_eq_true, Bool.not_eq_true', List.any_eq_false]
+    exact ⟨p.name, List.mem_map_of_mem hp, hk, fun x hx hxe => hnot (List.mem_map.mpr ⟨x, hx, by simpa using hxe⟩)⟩
+  rw [this] at hu
+  cases hu
+
+/-- **vsix_tamper_evident** (repaired signer and verifier).  `s` = a signing of `pkg`; `q` = any package `verify` accepts whose
+    signature part opens to the Object of `s`; digest comparison collision-free.  Then the payload members of `q` are exactly
+    the payload members that were signed, byte for byte (`p ∈ q ∧ keepFile p.name ↔ p ∈ s.kept`), no name occurs twice in
+    `q`, and the three covered parts the signer added are unchanged.  Not covered: the order of the members, and members
+    whose names `keepFile` refuses other than those three (`vsix_verify_depends_only_on_lookups`). -/
+theorem vsix_tamper_evident (E : Env) (c : Cfg) (pkg : Pkg) (s : Vsix.Signed) (q : Pkg) (v : Verdict)
+    (hs : Vsix.sign true E c pkg = .ok s) (hc : cfgOk c = true) (hv : Vsix.verify true E q = .ok v)
+    (hobj : ∀ sc o, readSignature E (findLast q) = .ok sc → E.xopen sc.1 sc.2 = .ok o → o.reference = s.obj)
+    (hcoll : ∀ a b, E.digestCmp c.hash a (E.dtext c.hash b) = .ok → a = b) :
+    (q.map (·.name)).Nodup ∧ (∀ p, (p ∈ q ∧ keepFile p.name = true) ↔ p ∈ s.kept) ∧
+    (∀ r ∈ s.refs, findLast q r.name = some ⟨r.name, r.stream⟩) := by
+  have F := cfgFacts_of_cfgOk hc
+  obtain ⟨hrok, hkn⟩ := sign_true_ok hs
+  have hpart := vsix_tamper_evident_partial true true E c pkg s q v hs hrok hv hobj hcoll
+  obtain ⟨hnd, hcov⟩ := vsix_accept_covers_all E q v hv
+  obtain ⟨-, sc, o, h1, h2, h3, -⟩ := verify_ok_inv true E q v hv
+  obtain ⟨m, hm, -, hobjeq, hkept, -, hparts⟩ := sign_inv hs
+  obtain ⟨hk, -⟩ := mangle_spec true E pkg {} m hm
+  simp only [List.nil_append] at hk
+  have hnames := checkRefs_names E _ _ _ h3
+  rw [hobj sc o h1 h2, hobjeq, decodeManifest_objectNode] at hnames
+  have hres := refs_resolve true E c pkg s F hs
+  simp only [refsOk, List.all_eq_true, decide_eq_true_eq] at hrok
+  refine ⟨hnd, ?_, hpart⟩
+  intro p
+  constructor
+  · rintro ⟨hp, hkeep⟩
+    have hin := hcov p hp hkeep
+    rw [hnames] at hin
+    simp only [refLookups, List.map_map, List.mem_map, Function.comp] at hin
+    obtain ⟨r, hr, hrn⟩ := hin
+    simp only [refInfoOf] at hrn
+    rw [hrok r hr] at hrn
+    have h1' := hpart r hr
+    have h2' := findLast_of_nodup hnd hp
+    rw [← hrn, h1'] at h2'
+    simp only [Option.some.injEq] at h2'
+    -- the signed package holds that very part among its kept members
+    have h3' := hres r hr
+    rw [hparts, hk] at h3'
+    obtain ⟨hmem, -⟩ := findLast_some h3'
+    rw [hkept, hk, ← h2']
+    rcases List.mem_append.mp hmem with h | h
+    · exact h
+    · have := F.notKept r.name (by rw [← newsOf_names E c s.obj s.ctOut]; exact List.mem_map_of_mem (f := (·.name)) h)
+      rw [← hrn, this] at hkeep
+      cases hkeep
+  · intro hp
+    rw [hkept, hk] at hp
+    have hkeep := keptOf_keep hp
+    refine ⟨?_, hkeep⟩
+    have hpk : p ∈ pkg := by simp only [keptOf, List.mem_filter] at hp; exact hp.1
+    have hin := (refs_names_iff hs p.name).mpr (Or.inl ⟨p, hpk, rfl, hkeep⟩)
+    obtain ⟨r, hr, hrn⟩ := List.mem_map.mp hin
+    have h1' := hres r hr
+    have h4 : findLast s.parts r.name = some p := by
+      rw [hparts, hk, hrn, look_kept F _ hkeep, findLast_of_nodup hkn hp]
+    rw [h1'] at h4
+    simp only [Option.some.injEq] at h4
+    have h2' := hpart r hr
+    rw [h4] at h2'
+    exact (findLast_some h2').1
+
 /-- the statement one would want: an accepted package is the signed package -/
 def vsix_tamper_evident_full : Prop :=
-  ∀ (E : Env) (c : Cfg) (pkg : Pkg) (s : Vsix.Signed) (pk : Bytes) (q : Pkg) (v : Verdict), Vsix.sign E c pkg = .ok s → cfgOk c = true →
-    refsOk s.refs = true → VsixSound E c s.obj pk → Vsix.verify E q = .ok v → q = s.parts
+  ∀ (E : Env) (c : Cfg) (pkg : Pkg) (s : Vsix.Signed) (pk : Bytes) (q : Pkg) (v : Verdict), Vsix.sign true E c pkg = .ok s → cfgOk c = true →
+    VsixSound E c s.obj pk → Vsix.verify true E q = .ok v → q = s.parts
 
-/-- **vsix_verify_depends_only_on_lookups.** -/
-theorem vsix_verify_depends_only_on_lookups (E : Env) (q q' : Pkg)
-    (h : ∀ n ∈ lookups E (findLast q), findLast q' n = findLast q n) : Vsix.verify E q' = Vsix.verify E q :=
-  verifyF_congr E h
+theorem mem_names_iff (q : Pkg) (n : Bytes) : n ∈ q.map (·.name) ↔ findLast q n ≠ none := by
+  constructor
+  · intro h
+    obtain ⟨p, hp, rfl⟩ := List.mem_map.mp h
+    obtain ⟨x, hx⟩ := findLast_of_mem hp
+    simp [hx]
+  · intro h
+    cases hf : findLast q n with
+    | none => exact absurd hf h
+    | some p => obtain ⟨h1, h2⟩ := findLast_some hf; exact List.mem_map.mpr ⟨p, h1, h2⟩
+
+/-- **vsix_verify_depends_only_on_lookups.** The verdict — whatever it is — depends on the package only through the members
+    stored under the names in `lookups` (relationship chain, signature part, certificate parts, one name per Reference)
+    and, for the repaired verifier, through whether some name occurs twice and which payload names occur. -/
+theorem vsix_verify_depends_only_on_lookups (fx : Bool) (E : Env) (q q' : Pkg)
+    (h : ∀ n ∈ lookups E (findLast q), findLast q' n = findLast q n)
+    (hd : fx = true → hasDup q' = hasDup q)
+    (hn : fx = true → ∀ n, keepFile n = true → (n ∈ q'.map (·.name) ↔ n ∈ q.map (·.name))) :
+    Vsix.verify fx E q' = Vsix.verify fx E q := by
+  unfold Vsix.verify
+  cases fx with
+  | false => simp only [Bool.false_and, Bool.false_eq_true, if_false]; exact verifyF_congr false E h (fun h => nomatch h)
+  | true =>
+    rw [hd rfl]
+    split
+    · rfl
+    · exact verifyF_congr true E h hn
 
 theorem findLast_insert_other (q1 q2 : Pkg) (p : Part) (n : Bytes) (h : n ≠ p.name) :
     findLast (q1 ++ p :: q2) n = findLast (q1 ++ q2) n := by
@@ -116,21 +191,74 @@ theorem findLast_insert_other (q1 q2 : Pkg) (p : Part) (n : Bytes) (h : n ≠ p.
     | none => simp [show ¬ p.name = n from fun e => h e.symm]
   rw [this]
 
-/-- **vsix_unlisted_part_accepted** (finding).  A part inserted anywhere under a name the verifier does not look up leaves the
-    verdict unchanged — in particular an accepted package stays accepted with any number of added parts. -/
+/-- **vsix_unlisted_part_accepted** (finding FV3; verifier before the repair).  A part inserted anywhere under a name the verifier
+    does not look up leaves the verdict unchanged — an accepted package stays accepted with any number of added parts. -/
 theorem vsix_unlisted_part_accepted (E : Env) (q1 q2 : Pkg) (p : Part) (h : p.name ∉ lookups E (findLast (q1 ++ q2))) :
-    Vsix.verify E (q1 ++ p :: q2) = Vsix.verify E (q1 ++ q2) :=
-  verifyF_congr E fun n hn => findLast_insert_other q1 q2 p n (fun e => h (e ▸ hn))
+    Vsix.verify false E (q1 ++ p :: q2) = Vsix.verify false E (q1 ++ q2) :=
+  vsix_verify_depends_only_on_lookups false E _ _ (fun n hn => findLast_insert_other q1 q2 p n (fun e => h (e ▸ hn)))
+    (fun h => nomatch h) (fun h => nomatch h)
 
-/-- **vsix_shadowed_member_accepted** (finding).  A member inserted *before* a member of the same name is never seen:
-    `files[f.Name] = f` keeps the last one.  A consumer that reads the first member of a name gets other bytes than the
-    ones verified. -/
+/-- **vsix_shadowed_member_accepted** (finding FV4; verifier before the repair).  A member inserted *before* a member of the same
+    name is never seen: `files[f.Name] = f` keeps the last one. -/
 theorem vsix_shadowed_member_accepted (E : Env) (q1 q2 : Pkg) (p : Part) (h : findLast q2 p.name ≠ none) :
-    Vsix.verify E (q1 ++ p :: q2) = Vsix.verify E (q1 ++ q2) := by
+    Vsix.verify false E (q1 ++ p :: q2) = Vsix.verify false E (q1 ++ q2) := by
   unfold Vsix.verify
-  congr 1
-  funext n
-  rw [findLast_append, findLast_append, findLast_cons_shadow p q2 h]
+  simp only [Bool.false_and, Bool.false_eq_true, if_false]
+  have : findLast (q1 ++ p :: q2) = findLast (q1 ++ q2) := by
+    funext n
+    rw [findLast_append, findLast_append, findLast_cons_shadow p q2 h]
+  rw [this]
+  exact verifyF_congr false E (fun _ _ => rfl) (fun h => nomatch h)
+
+/-- **vsix_shadowed_member_rejected** (repaired verifier).  A package holding two members of one name — wherever they are — is
+    rejected. -/
+theorem vsix_shadowed_member_rejected (E : Env) (q1 q2 : Pkg) (p : Part) (h : ∃ x ∈ q1 ++ q2, x.name = p.name) :
+    Vsix.verify true E (q1 ++ p :: q2) = .err "duplicate" := by
+  have hd : hasDup (q1 ++ p :: q2) = true := by
+    simp only [hasDup, Bool.not_eq_true', decide_eq_false_iff_not, List.map_append, List.map_cons]
+    intro hnd
+    obtain ⟨x, hx, hxn⟩ := h
+    rw [List.nodup_append] at hnd
+    obtain ⟨h1, h2, h3⟩ := hnd
+    simp only [List.nodup_cons] at h2
+    rcases List.mem_append.mp hx with hx1 | hx2
+    · exact h3 x.name (List.mem_map_of_mem hx1) p.name List.mem_cons_self hxn
+    · exact h2.1 (by rw [← hxn]; exact List.mem_map_of_mem hx2)
+  simp [Vsix.verify, hd]
+
+/-- **vsix_unlisted_part_rejected** (repaired verifier).  A payload part (a name `keepFile` keeps) inserted anywhere into an
+    accepted package under a name that is neither a member name nor looked up is rejected: "part is not covered by the
+    signature". -/
+theorem vsix_unlisted_part_rejected (E : Env) (q1 q2 : Pkg) (p : Part) (v : Verdict) (hv : Vsix.verify true E (q1 ++ q2) = .ok v)
+    (hk : keepFile p.name = true) (hfresh : p.name ∉ (q1 ++ q2).map (·.name)) (h : p.name ∉ lookups E (findLast (q1 ++ q2))) :
+    Vsix.verify true E (q1 ++ p :: q2) = .err "uncovered" := by
+  obtain ⟨hnd, sc, o, h1, h2, h3, hts, -, -, -, -⟩ := verify_ok_inv true E _ v hv
+  have hnd' : ((q1 ++ p :: q2).map (·.name)).Nodup := by
+    have := hnd rfl
+    simp only [List.map_append, List.map_cons, List.mem_append, not_or] at this hfresh ⊢
+    rw [List.nodup_append] at this ⊢
+    refine ⟨this.1, List.nodup_cons.mpr ⟨hfresh.2, this.2.1⟩, ?_⟩
+    intro a ha b hb
+    rcases List.mem_cons.mp hb with rfl | hb'
+    · exact fun e => hfresh.1 (e ▸ ha)
+    · exact this.2.2 a ha b hb'
+  have hcore := verifyCore_congr E (files := findLast (q1 ++ q2)) (files' := findLast (q1 ++ p :: q2))
+    (fun n hn => findLast_insert_other q1 q2 p n (fun e => h (e ▸ hn)))
+  have hc0 : verifyCore E (findLast (q1 ++ q2)) = .ok (sc, o, v.checked) := by
+    unfold verifyCore
+    simp only [h1, h2, h3]
+  have hnot : p.name ∉ v.checked.map (·.1) := by
+    rw [checkRefs_names E _ _ _ h3]
+    intro hm
+    exact h (by simp [lookups, manifestLookups, h1, h2, hm])
+  have hunc : uncovered ((q1 ++ p :: q2).map (·.name)) v.checked = true := by
+    simp only [uncovered, List.any_eq_true, Bool.and_eq_true, Bool.not_eq_true', List.any_eq_false, decide_eq_false_iff_not]
+    refine ⟨p.name, by simp, hk, ?_⟩
+    intro x hx hxe
+    exact hnot (List.mem_map.mpr ⟨x, hx, by simpa using hxe⟩)
+  have hdup : hasDup (q1 ++ p :: q2) = false := by simp only [hasDup, hnd', decide_true, Bool.not_true]
+  unfold Vsix.verify verifyF
+  simp only [hdup, Bool.and_false, Bool.false_eq_true, if_false, hcore, hc0, Bool.true_and, hunc, if_true]
 
 /-! ### the names looked up in a signed package -/
 
@@ -139,14 +267,14 @@ theorem certLookups_certRels : ∀ {xs : List (Bytes × Bytes)} {tail : List Rel
   | _, _, .nil => rfl
   | _, _, .cons hr ht => by simp [certLookups, hr.1, hr.2, certLookups_certRels ht]
 
-theorem lookups_signed (E : Env) (c : Cfg) (pkg : Pkg) (s : Vsix.Signed) (pk : Bytes)
-    (hs : Vsix.sign E c pkg = .ok s) (hc : cfgOk c = true) (S : VsixSound E c s.obj pk) :
+theorem lookups_signed (fx : Bool) (E : Env) (c : Cfg) (pkg : Pkg) (s : Vsix.Signed) (pk : Bytes)
+    (hs : Vsix.sign fx E c pkg = .ok s) (hc : cfgOk c = true) (S : VsixSound E c s.obj pk) :
     ∀ n ∈ lookups E (findLast s.parts),
       n ∈ [relPath [], relPath sOrigin, sigName c, relPath (sigName c)] ∨ (c.detach = true ∧ n ∈ c.chain.map (fun x => certPath x.1)) ∨
       n ∈ s.refs.map (fun r => uriPath r.uri) := by
   have F := cfgFacts_of_cfgOk hc
   obtain ⟨m, hm, -, hobj, -, -, hparts⟩ := sign_inv hs
-  obtain ⟨hk, -⟩ := mangle_spec E pkg {} m hm
+  obtain ⟨hk, -⟩ := mangle_spec fx E pkg {} m hm
   simp only [List.nil_append] at hk
   obtain ⟨emb, hx, -⟩ := S.xml
   have hrs := readSignature_signed E c pkg s.obj s.ctOut pk F S
@@ -193,15 +321,30 @@ theorem lookups_signed (E : Env) (c : Cfg) (pkg : Pkg) (s : Vsix.Signed) (pk : B
       exact Or.inr (Or.inl ⟨rfl, hmem⟩)
   · exact Or.inr (Or.inr h)
 
-/-- **vsix_content_types_unchecked** (finding).  In a package relic signed (names well-formed), the verifier never opens
-    `[Content_Types].xml`: every package that differs from the signed one only under that name — the part replaced by
-    anything, removed, or doubled — gets the same verdict, i.e. is accepted. -/
-theorem vsix_content_types_unchecked (E : Env) (c : Cfg) (pkg : Pkg) (s : Vsix.Signed) (pk : Bytes) (q' : Pkg)
-    (hs : Vsix.sign E c pkg = .ok s) (hc : cfgOk c = true) (hr : refsOk s.refs = true) (S : VsixSound E c s.obj pk)
-    (h : ∀ n, n ≠ sContentTypes → findLast q' n = findLast s.parts n) :
-    Vsix.verify E q' = .ok ⟨c.hash, pk, s.refs.map fun r => (r.name, r.stream)⟩ := by
-  rw [← vsix_sign_then_verify E c pkg s pk hs hc hr S]
-  apply verifyF_congr E
+/-- **vsix_content_types_unchecked** (finding FV5, listed).  In a package relic signed, the verifier — before and after the
+    repairs — never opens `[Content_Types].xml`: every package that differs from the signed one only under that name (the part
+    replaced by anything, or removed; for the repaired verifier: without doubling a name) gets the same verdict, i.e. is
+    accepted.  The content type inside each Reference URI is not compared with anything. -/
+theorem vsix_content_types_unchecked (fx : Bool) (E : Env) (c : Cfg) (pkg : Pkg) (s : Vsix.Signed) (pk : Bytes) (q' : Pkg)
+    (hs : Vsix.sign fx E c pkg = .ok s) (hc : cfgOk c = true) (hr : refsOk s.refs = true) (S : VsixSound E c s.obj pk)
+    (hnd : fx = true → ((keptOf pkg).map (·.name)).Nodup)
+    (h : ∀ n, n ≠ sContentTypes → findLast q' n = findLast s.parts n) (hq : fx = true → (q'.map (·.name)).Nodup) :
+    Vsix.verify fx E q' = .ok ⟨c.hash, pk, s.refs.map fun r => (r.name, r.stream)⟩ := by
+  have hgood := vsix_sign_then_verify_guarded fx E c pkg s pk hs hc hr S hnd
+  rw [← hgood]
+  have hkct : keepFile sContentTypes = false := by decide
+  apply vsix_verify_depends_only_on_lookups fx E
+  rotate_left
+  · intro hfx
+    subst hfx
+    have h1 : hasDup q' = false := by simp [hasDup, hq rfl]
+    have h2 : hasDup s.parts = false := by
+      obtain ⟨hd, -⟩ := verify_ok_inv true E _ _ hgood
+      simp [hasDup, hd rfl]
+    rw [h1, h2]
+  · intro _ n hk
+    have hne : n ≠ sContentTypes := fun e => by rw [e, hkct] at hk; cases hk
+    rw [mem_names_iff, mem_names_iff, h n hne]
   intro n hn
   apply h
   intro hne
@@ -219,7 +362,7 @@ theorem vsix_content_types_unchecked (E : Env) (c : Cfg) (pkg : Pkg) (s : Vsix.S
     rw [hsplit, List.nodup_append] at hnd
     intro hmem
     exact hnd.2.2 _ hmem _ List.mem_cons_self rfl
-  rcases lookups_signed E c pkg s pk hs hc S _ hn with h1 | ⟨hd, h2⟩ | h3
+  rcases lookups_signed fx E c pkg s pk hs hc S _ hn with h1 | ⟨hd, h2⟩ | h3
   · simp only [List.mem_cons, List.not_mem_nil, or_false] at h1
     rcases h1 with h1 | h1 | h1 | h1
     · exact hfront (by rw [h1]; simp)
@@ -235,7 +378,7 @@ theorem vsix_content_types_unchecked (E : Env) (c : Cfg) (pkg : Pkg) (s : Vsix.S
   · simp only [refsOk, List.all_eq_true, decide_eq_true_eq] at hr
     obtain ⟨r, hrm, hre⟩ := List.mem_map.mp h3
     rw [hr r hrm] at hre
-    have hcov := (vsix_part_covered_iff E c pkg s hs r.name).mp (List.mem_map_of_mem (f := (·.name)) hrm)
+    have hcov := (vsix_part_covered_iff fx E c pkg s hs r.name).mp (List.mem_map_of_mem (f := (·.name)) hrm)
     rw [hre] at hcov
     rcases hcov with ⟨p, -, -, hk⟩ | h' | h' | h'
     · rw [hnk] at hk; cases hk
@@ -246,50 +389,75 @@ theorem vsix_content_types_unchecked (E : Env) (c : Cfg) (pkg : Pkg) (s : Vsix.S
 /-! ### witnesses on the demo package -/
 
 set_option maxRecDepth 100000 in
-theorem demoObj_eq : demoObj (demoCfg false) demoPkg = (demoSigned (demoCfg false) demoPkg).obj := by rfl
+theorem demoObj_eq (fx : Bool) : demoObj (demoCfg false) demoPkg = (demoSigned fx (demoCfg false) demoPkg).obj := by cases fx <;> rfl
+
+/-- "a.txt" -/
+def aTxt : Bytes := [0x61, 0x2e, 0x74, 0x78, 0x74]
+/-- "evil.dll" -/
+def evilDll : Bytes := [0x65, 0x76, 0x69, 0x6c, 0x2e, 0x64, 0x6c, 0x6c]
 
 /-- the signed demo package with `evil.dll` appended, `a.txt` shadowed by a member in front, and `[Content_Types].xml`
-    replaced by one byte: still accepted, with the same four digests recomputed -/
+    replaced by one byte -/
 def tamperedDemo : Pkg :=
-  (⟨[0x61, 0x2e, 0x74, 0x78, 0x74], [0x66, 0x66]⟩ :: ((demoSigned (demoCfg false) demoPkg).parts.filter fun p => p.name ≠ sContentTypes)) ++
-    [⟨[0x65, 0x76, 0x69, 0x6c, 0x2e, 0x64, 0x6c, 0x6c], [0x4d, 0x5a]⟩, ⟨sContentTypes, [0]⟩]
+  (⟨aTxt, [0x66, 0x66]⟩ :: ((demoSigned false (demoCfg false) demoPkg).parts.filter fun p => p.name ≠ sContentTypes)) ++
+    [⟨evilDll, [0x4d, 0x5a]⟩, ⟨sContentTypes, [0]⟩]
 
+/-- before the repairs: accepted, with the same four digests recomputed -/
 theorem vsix_gaps_witness :
-    Vsix.verify (demoE (demoCfg false) demoPkg) tamperedDemo = Vsix.verify (demoE (demoCfg false) demoPkg) (demoSigned (demoCfg false) demoPkg).parts ∧
-    (Vsix.verify (demoE (demoCfg false) demoPkg) tamperedDemo).isOk = true ∧ tamperedDemo ≠ (demoSigned (demoCfg false) demoPkg).parts := by
+    Vsix.verify false (demoE (demoCfg false) demoPkg) tamperedDemo =
+      Vsix.verify false (demoE (demoCfg false) demoPkg) (demoSigned false (demoCfg false) demoPkg).parts ∧
+    (Vsix.verify false (demoE (demoCfg false) demoPkg) tamperedDemo).isOk = true ∧ tamperedDemo ≠ (demoSigned false (demoCfg false) demoPkg).parts := by
+  refine ⟨by decide +kernel, by decide +kernel, by decide +kernel⟩
+
+/-- after the repairs: the shadowing member alone, and the added part alone, are rejected -/
+theorem vsix_repaired_witness :
+    Vsix.verify true (demoE (demoCfg false) demoPkg) (⟨aTxt, [0x66, 0x66]⟩ :: (demoSigned true (demoCfg false) demoPkg).parts) = .err "duplicate" ∧
+    Vsix.verify true (demoE (demoCfg false) demoPkg) ((demoSigned true (demoCfg false) demoPkg).parts ++ [⟨evilDll, [0x4d, 0x5a]⟩]) = .err "uncovered" ∧
+    Vsix.verify true (demoE (demoCfg false) demoPkg) tamperedDemo = .err "duplicate" := by
+  refine ⟨by decide +kernel, by decide +kernel, by decide +kernel⟩
+
+/-- what the repaired verifier still accepts: `[Content_Types].xml` replaced (FV5), a part added under a name `keepFile` refuses
+    (`package/services/digital-signature/evil.dll`, FV6), the members in another order -/
+def residualDemo : Pkg :=
+  ((demoSigned true (demoCfg false) demoPkg).parts.filter fun p => p.name ≠ sContentTypes).reverse ++
+    [⟨sDigSigSlash ++ evilDll, [0x4d, 0x5a]⟩, ⟨sContentTypes, [0]⟩]
+
+theorem vsix_residual_witness :
+    Vsix.verify true (demoE (demoCfg false) demoPkg) residualDemo =
+      Vsix.verify true (demoE (demoCfg false) demoPkg) (demoSigned true (demoCfg false) demoPkg).parts ∧
+    (Vsix.verify true (demoE (demoCfg false) demoPkg) residualDemo).isOk = true ∧ residualDemo ≠ (demoSigned true (demoCfg false) demoPkg).parts := by
   refine ⟨by decide +kernel, by decide +kernel, by decide +kernel⟩
 
 theorem vsix_tamper_evident_full_false : ¬ vsix_tamper_evident_full := by
   intro h
-  cases hv : Vsix.verify (demoE (demoCfg false) demoPkg) tamperedDemo with
+  cases hv : Vsix.verify true (demoE (demoCfg false) demoPkg) residualDemo with
   | ok v =>
-    exact vsix_gaps_witness.2.2 (h _ _ _ _ [7] _ v (demo_sign false demoPkg rfl) (by decide) (by decide) (demo_sound false) hv)
-  | err x => have := vsix_gaps_witness.2.1; rw [hv] at this; cases this
-  | panic x => have := vsix_gaps_witness.2.1; rw [hv] at this; cases this
-  | diverge => have := vsix_gaps_witness.2.1; rw [hv] at this; cases this
+    exact vsix_residual_witness.2.2 (h _ _ _ _ [7] _ v (demo_sign true false demoPkg rfl) (by decide) (demo_sound true false) hv)
+  | err x => have := vsix_residual_witness.2.1; rw [hv] at this; cases this
+  | panic x => have := vsix_residual_witness.2.1; rw [hv] at this; cases this
+  | diverge => have := vsix_residual_witness.2.1; rw [hv] at this; cases this
 
 /-- a changed payload byte is noticed: `a.txt` of the signed demo package with one other byte -/
-example : Vsix.verify (demoE (demoCfg false) demoPkg)
-    ((demoSigned (demoCfg false) demoPkg).parts.map fun p => if p.name = [0x61, 0x2e, 0x74, 0x78, 0x74] then ⟨p.name, [1, 3]⟩ else p) =
+example : Vsix.verify true (demoE (demoCfg false) demoPkg)
+    ((demoSigned true (demoCfg false) demoPkg).parts.map fun p => if p.name = aTxt then ⟨p.name, [1, 3]⟩ else p) =
     .err "digest-mismatch" := by decide +kernel
 
-/-- the hypotheses of `vsix_tamper_evident_partial` are satisfiable (the toy digest is the identity, hence collision-free) -/
-example : ∀ r ∈ (demoSigned (demoCfg false) demoPkg).refs,
-    findLast (demoSigned (demoCfg false) demoPkg).parts r.name = some ⟨r.name, r.stream⟩ := by
-  have hv := vsix_sign_then_verify _ (demoCfg false) demoPkg _ [7] (demo_sign false demoPkg rfl) (by decide) (by decide) (demo_sound false)
-  refine vsix_tamper_evident_partial _ (demoCfg false) demoPkg _ _ _ (demo_sign false demoPkg rfl) (by decide) hv ?_ ?_
+/-- the hypotheses of `vsix_tamper_evident` are satisfiable (the toy digest is the identity, hence collision-free) -/
+example : ∀ p, (p ∈ (demoSigned true (demoCfg false) demoPkg).parts ∧ keepFile p.name = true) ↔ p ∈ (demoSigned true (demoCfg false) demoPkg).kept := by
+  have hv := vsix_sign_then_verify _ (demoCfg false) demoPkg _ [7] (demo_sign true false demoPkg rfl) (by decide) (demo_sound true false)
+  refine (vsix_tamper_evident _ (demoCfg false) demoPkg _ _ _ (demo_sign true false demoPkg rfl) (by decide) hv ?_ ?_).2.1
   · intro sc o h1 h2
-    have hrs := readSignature_signed (demoE (demoCfg false) demoPkg) (demoCfg false) demoPkg (demoSigned (demoCfg false) demoPkg).obj
-      (demoSigned (demoCfg false) demoPkg).ctOut [7] (cfgFacts_of_cfgOk (by decide)) (demo_sound false)
-    obtain ⟨m, hm, -, -, -, -, hparts⟩ := sign_inv (demo_sign false demoPkg rfl)
-    obtain ⟨hk, -⟩ := mangle_spec _ demoPkg {} m hm
+    have hrs := readSignature_signed (demoE (demoCfg false) demoPkg) (demoCfg false) demoPkg (demoSigned true (demoCfg false) demoPkg).obj
+      (demoSigned true (demoCfg false) demoPkg).ctOut [7] (cfgFacts_of_cfgOk (by decide)) (demo_sound true false)
+    obtain ⟨m, hm, -, -, -, -, hparts⟩ := sign_inv (demo_sign true false demoPkg rfl)
+    obtain ⟨hk, -⟩ := mangle_spec true _ demoPkg {} m hm
     simp only [List.nil_append] at hk
     rw [hparts, hk, hrs] at h1
     cases h1
     simp only [demoE, demoEnv] at h2
     simp at h2
     rw [← h2]
-    exact demoObj_eq
+    exact demoObj_eq true
   · intro a b h
     simp only [demoE, demoEnv] at h
     by_cases hab : b = a
